@@ -17,18 +17,32 @@ class ContractBroken(AssertionError):
         AssertionError.__init__(self, msg)
 
 
-def _err(name):
-    def make(**kw):
-        parts = []
-        for k, v in kw.items():
-            if k in ('self', 'result'):
-                continue
-            try:
-                parts.append('%s=%s' % (k, len(v) if hasattr(v, '__len__') else v))
-            except Exception:
-                pass
-        return ContractBroken('%s (%s)' % (name, ', '.join(parts)))
-    return make
+def _e_fits(self, new_data):
+    return ContractBroken('%s written past its allocation (position=%d, +%d, allocated=%d)' % (
+        type(self).__name__, self._data_insert_position, len(new_data), len(self.data)))
+
+
+def _e_scaler_fits(self, scale_id, new_data):
+    return ContractBroken('DaqmxDataReceiver written past its allocation (scaler=%s, position=%d, +%d, allocated=%d)' % (
+        scale_id, self._scaler_insert_positions[scale_id], len(new_data), len(self.scaler_data[scale_id])))
+
+
+def _e_lazy_full(self, offset, length):
+    return ContractBroken('windowed read left its receiver partly filled (offset=%s, length=%s, len=%d)' % (offset, length, len(self)))
+
+
+def _e_lazy_len(self, offset, length):
+    return ContractBroken('windowed read delivered a different number of values than requested (offset=%s, length=%s, len=%d)' % (
+        offset, length, len(self)))
+
+
+def _e_eager_full(self):
+    return ContractBroken('eager read left a receiver partly filled')
+
+
+def _e_chunks(self):
+    return ContractBroken('chunk count does not account for the segment data size (num_chunks=%s, chunk=%s, total=%s)' % (
+        self.num_chunks, self._get_chunk_size(), self.next_segment_pos - self.data_position))
 
 
 # ---- receivers: never written past their allocation ------------------------------------
@@ -99,19 +113,19 @@ def install():
     import nptdms.tdms_segment as ts
 
     cd.NumpyDataReceiver.append_data = icontract.require(
-        _fits, error=_err('NumpyDataReceiver written past its allocation'))(cd.NumpyDataReceiver.append_data)
+        _fits, error=_e_fits)(cd.NumpyDataReceiver.append_data)
     cd.TimestampDataReceiver.append_data = icontract.require(
-        _fits, error=_err('TimestampDataReceiver written past its allocation'))(cd.TimestampDataReceiver.append_data)
+        _fits, error=_e_fits)(cd.TimestampDataReceiver.append_data)
     cd.DaqmxDataReceiver.append_scaler_data = icontract.require(
-        _scaler_fits, error=_err('DaqmxDataReceiver written past its allocation'))(cd.DaqmxDataReceiver.append_scaler_data)
+        _scaler_fits, error=_e_scaler_fits)(cd.DaqmxDataReceiver.append_scaler_data)
     f = tdms.TdmsChannel._read_channel_data
-    f = icontract.ensure(_lazy_read_full, error=_err('windowed read left its receiver partly filled'))(f)
-    f = icontract.ensure(_lazy_read_len, error=_err('windowed read delivered a different number of values than requested'))(f)
+    f = icontract.ensure(_lazy_read_full, error=_e_lazy_full)(f)
+    f = icontract.ensure(_lazy_read_len, error=_e_lazy_len)(f)
     tdms.TdmsChannel._read_channel_data = f
     tdms.TdmsFile._read_data = icontract.ensure(
-        _eager_all_full, error=_err('eager read left a receiver partly filled'))(tdms.TdmsFile._read_data)
+        _eager_all_full, error=_e_eager_full)(tdms.TdmsFile._read_data)
     ts.TdmsSegment._calculate_chunks = icontract.ensure(
-        _chunks_account, error=_err('chunk count does not account for the segment data size'))(ts.TdmsSegment._calculate_chunks)
+        _chunks_account, error=_e_chunks)(ts.TdmsSegment._calculate_chunks)
     _installed = True
 
 
